@@ -25,7 +25,7 @@ REQUIRED_FEATURES = ["dump:region", "dump:region2", "dump:fill-lower", "dump:joi
                      "dump:table-bins", "dump:table-chroms", "roundtrip:coo", "roundtrip:bg2", "roundtrip:one-based",
                      "roundtrip:square", "layout:load-nonmonotone", "layout:cload-pairs-nonmonotone", "via:subprocess",
                      "bins-arg:chromsizes:binsize", "dump:fill-lower-straddling", "roundtrip:duplex",
-                     "layout:load-square-unsorted-records"]
+                     "layout:load-square-unsorted-records", "layout:load-count-as-float+explicit-count-field"]
 
 
 def plan(tier, seed):
@@ -387,7 +387,7 @@ def layout_case(ctx, cid, rng, idx):
     bl = gen.bt_bins_list(bt)
     kind = ["coo", "bg2", "pairs"][idx % 3]
     ncols = int(rng.integers(8, 12))
-    square = False
+    square = cfloat = False
     with ctx.case(cid, {"bt": bt, "kind": kind}) as c:
         if kind == "pairs":
             fields = ["chrom1", "pos1", "chrom2", "pos2", "score"]
@@ -412,6 +412,9 @@ def layout_case(ctx, cid, rng, idx):
                 + ["count", "score"]
             square = bool(rng.random() < 0.4)          # --no-symmetric-upper: both triangles are data, kept as given
             P = gen.gen_pixels(rng, n, not square, "sparse70") or {(0, 0): 3}
+            cfloat = bool(rng.random() < 0.3)           # fractional counts, loaded with --count-as-float
+            if cfloat:
+                P = {k: v + float(int(rng.integers(1, 8))) / 8 for k, v in P.items()}
             E = {k: float(int(rng.integers(0, 80))) / 8 for k in P}
             want, wsc = P, E
             values = []
@@ -446,6 +449,9 @@ def layout_case(ctx, cid, rng, idx):
                 if square:
                     args.append("--no-symmetric-upper")
                     c.feature("layout:load-square-unsorted-records")
+                if cfloat:
+                    args.append("--count-as-float")
+                    c.feature("layout:load-count-as-float+explicit-count-field")
                 for f_ in fields:
                     spec = f"{f_}={fn[f_]}" + (":dtype=float" if f_ == "score" else "")
                     args += ["--field", spec]
@@ -464,6 +470,9 @@ def layout_case(ctx, cid, rng, idx):
             c.check(list(keys) == sorted(want), f"layout-pixel-table-not-the-sorted-record-set:{kind}",
                     f"`cooler {shown}`: stored pixel rows are not the sorted set of input pixels (the library's create/"
                     f"matrix queries rely on that order)", lambda: {"got_keys": list(keys)[:12], "want_keys": sorted(want)[:12]})
+            if cfloat:
+                c.check(cols["count"].dtype == np.float64, "count-as-float-ignored",
+                        f"`cooler {shown}`: count stored as {cols['count'].dtype}")
             c.check(got == want, f"layout-counts-differ:{kind}:{key_m}",
                     f"`cooler {shown}` does not reproduce the library result (field numbers {fn})",
                     lambda: {"got": sorted(got.items())[:10], "want": sorted(want.items())[:10]})
